@@ -8,7 +8,7 @@ COMPONENTS = ["ring"]
 T4 = []
 PROOF_MODULES = ["GrpcProofs.Properties.C37"]
 THEOREMS = ["GrpcProofs.C37." + t for t in (
-    "ring_order_independent", "ring_size_bounds", "ring_nonempty", "entries_proportional", "ring_sorted",
+    "ring_order_independent", "ring_size_bounds", "ring_size_le_max_any_arithmetic", "ring_nonempty", "entries_proportional", "ring_sorted",
     "search_spec", "pick_first_at_least", "pick_wraps_to_first", "next_is_clockwise",
     "walk_skips_transient_failure", "walk_all_failed_returns_first_entry",
     "random_walk_first_ready", "random_walk_at_most_one_connect", "random_walk_no_ready")]
@@ -22,14 +22,16 @@ LEVEL_TEXT = ("Machine-checked Lean proof, over exact rational arithmetic, that 
               "hash; that ring.pick (literal sort.Search port) returns the first entry with hash >= h and wraps to entry 0; that "
               "a request-hash pick goes to the first non-TRANSIENT_FAILURE entry clockwise (first entry if all failed) and a "
               "random-hash pick to the first READY endpoint with at most one exitIdle, none if an endpoint is CONNECTING.")
-LEVEL_NOTE = ("PARTIAL: the real newRing computes in float64; the theorems are about the same definition instantiated with exact "
-              "rationals, the float instance is diffed bit-for-bit against the Go code and the property's predicates (exact, no "
-              "tolerance) are monitored on the real ring. The monitor's proportionality predicate is `exists scale in (n-1, n] "
-              "with |count_i - scale*nw_i| < 1 for all i`. Known findings F14 / F14b: float accumulation of targetHashes yields "
-              "max_ring_size + 1 entries for some weight sets, and one entry too many for an endpoint whose exact target is an "
-              "integer (both verdicts are accepted only when the ring equals what the float port of the unchanged code predicts). Domain: distinct hash keys, distinct entry hashes, weights >= 1 with "
-              "sum < 2^32, 1 <= min_ring_size <= max_ring_size (what the config parser guarantees).")
-GAP = ("float64 rounding inside newRing is not reasoned about (that is exactly where F14 lives); xxhash is a parameter; "
+LEVEL_NOTE = ("PARTIAL: the real newRing computes in float64; apart from ring_size_le_max_any_arithmetic (|ring| <= max_ring_size "
+              "for every arithmetic incl. float64, true since the F14 repair 9cc3b57 put `len(items) < maxRingSize` into the fill "
+              "loop) the theorems are about the same definition instantiated with exact rationals; the float instance is diffed "
+              "bit-for-bit against the Go code and the property's predicates (exact, no tolerance) are monitored on the real ring. "
+              "The monitor's proportionality predicate is `exists scale in (n-1, n] with |count_i - scale*nw_i| < 1 for all i`. "
+              "Known finding F14b: when an exact cumulative target is an integer the float64 value can land just above it and "
+              "one endpoint gets an entry more, its neighbour one fewer (verdict accepted only when the ring equals what the float "
+              "port of the current code predicts). F14 (max_ring_size + 1 entries) is fixed. Domain: distinct hash keys, distinct "
+              "entry hashes, weights >= 1 with sum < 2^32, 1 <= min_ring_size <= max_ring_size (what the config parser guarantees).")
+GAP = ("float64 rounding inside newRing is not reasoned about beyond the max bound (that is where F14b lives); xxhash is a parameter; "
        "resolver/child-policy plumbing of ringhash.go (state aggregation, ring regeneration) is not modelled")
 ASSUMPTIONS = ["hash keys of the endpoints are distinct", "xxhash values of distinct ring entries are distinct",
                "child pickers are never in SHUTDOWN (the code panics on it)"]
@@ -209,7 +211,7 @@ def gen(rng, tier):
         keys = rand_keys(rng, n)
         ws = rand_weights(rng, n)
         yield Case("ring", ring_case(rng, keys, ws, 1024, 4096, 6, 6), "ring-big-%d" % j)
-    # F14 witnesses (known finding), each alone in its case
+    # F14 witnesses (max+1 entries before /repo commit 9cc3b57; must now stay within max), each alone in its case
     w1 = [353, 525, 364, 915, 538, 257, 795, 474]
     yield Case("ring", [ring_op(rng, ["e%d" % i for i in range(8)], w1, 4, 8)], "F14-witness-4-8")
     # F14b witness: exact targets 20, 36, .. are integers; float64 gives 20.000000000000004 -> counts 21, 15 instead of 20, 16
